@@ -22,11 +22,11 @@ theorem sqLink_accepted (pd : Bool) (key : Nat) (srv : Server) (fd : Nat) (s : S
     (sqLink go pd key srv fd s).1.accepted = s.accepted := by
   unfold sqLink; acc_simp hgo
 
-theorem sqWrite_accepted (reqSrv : Option Nat) (key : Nat) (q : Query) (srv : Server) (fd : Nat) (s : St) :
-    (sqWrite go reqSrv key q srv fd s).1.accepted = s.accepted := by
-  have h2 := sqFlush_accepted go hgo fd (sqPrep key q srv fd s).1
-  rw [sqPrep_accepted] at h2
-  unfold sqWrite
+theorem sqWriteQ_accepted (reqSrv : Option Nat) (key : Nat) (q : Query) (srv : Server) (fd : Nat) (s : St) :
+    (sqWriteQ go reqSrv key q srv fd s).1.accepted = s.accepted := by
+  have h2 := sqFlush_accepted go hgo fd (sqPrepare key q srv fd s).1
+  rw [sqPrepare_accepted] at h2
+  unfold sqWriteQ
   repeat (first
     | with_reducible rfl
     | (simp only [chan_frame, hgo, h2, sqLink_accepted go hgo])
@@ -34,7 +34,7 @@ theorem sqWrite_accepted (reqSrv : Option Nat) (key : Nat) (q : Query) (srv : Se
 
 theorem bodySendQuery_accepted (reqSrv : Option Nat) (key : Nat) (s : St) :
     (bodySendQuery go reqSrv key s).1.accepted = s.accepted := by
-  rw [bodySendQuery_eq]
+  rw [bodySendQuery_stages]
   split
   · rfl
   · simp only []
@@ -42,7 +42,7 @@ theorem bodySendQuery_accepted (reqSrv : Option Nat) (key : Nat) (s : St) :
     · simp only [hgo, chan_frame]
     · split <;> pair_subst
       · rw [hgo]; split at * <;> simp_all only [chan_frame]
-      · rw [sqWrite_accepted go hgo]; split at * <;> simp_all only [chan_frame]
+      · rw [sqWriteQ_accepted go hgo]; split at * <;> simp_all only [chan_frame]
 
 theorem foldl_closeConn_accepted (fds : List Nat) (s : St) :
     (fds.foldl (fun s fd => (go (.closeConn fd .ok) s).1) s).accepted = s.accepted := by
@@ -83,10 +83,10 @@ variable (go go' : Call → St → St × Ret)
 /-- **`process_answer` hands on only the response it has just accepted**: once `(fd, key, r)` is accepted, the rest of
     `process_answer` does not depend on how recursive calls behave that carry any other response, or that carry `r`
     in a state where `(fd, key, r)` is not in `accepted` -/
-theorem paTail_calls (fd : Nat) (r : Reply) (c : Conn) (key : Nat) (q : Query) (s : St)
+theorem paDeliver_calls (fd : Nat) (r : Reply) (c : Conn) (key : Nat) (q : Query) (s : St)
     (h : ∀ cl s', (cl.rec? = none ∨ (cl.rec? = some r ∧ (fd, key, r) ∈ s'.accepted)) → go cl s' = go' cl s') :
-    paTail go fd r c key q s = paTail go' fd r c key q s := by
-  unfold paTail
+    paDeliver go fd r c key q s = paDeliver go' fd r c key q s := by
+  unfold paDeliver
   simp only []
   split
   · rfl
@@ -107,7 +107,7 @@ theorem bodyProcessAnswer_calls (fd : Nat) (r : Reply) (s : St)
     obtain ⟨c', q', _, _, _, heq'⟩ := bodyProcessAnswer_accept go' hk
     rw [heq, heq']
     simp_all only [Option.some.injEq]
-    apply paTail_calls
+    apply paDeliver_calls
     intro cl s' hcl
     apply h
     rcases hcl with h1 | ⟨h1, h2⟩
@@ -116,7 +116,7 @@ theorem bodyProcessAnswer_calls (fd : Nat) (r : Reply) (s : St)
   | none =>
     have h0 : ∀ cl s', (cl.rec? = none ∨ False) → go cl s' = go' cl s' :=
     fun cl s' hn => h cl s' (.inl (hn.resolve_right id))
-    rw [bodyProcessAnswer_eq, bodyProcessAnswer_eq]
+    rw [bodyProcessAnswer_stages, bodyProcessAnswer_stages]
     simp only [h0, Call.rec?, true_or, eq_self]
     -- the accepting branch is unreachable
     unfold acceptKey at hk
@@ -134,8 +134,8 @@ theorem execBody_calls (c : Call) (s : St)
   case processAnswer fd r => exact absurd rfl (hc fd r)
   case sendNolock a b d e f g => exact absurd rfl (hs a b d e f g)
   case sendQuery r k =>
-    rw [bodySendQuery_eq, bodySendQuery_eq]
-    unfold sqWrite sqFlush sqLink
+    rw [bodySendQuery_stages, bodySendQuery_stages]
+    unfold sqWriteQ sqFlush sqLink
     simp only [h, Call.rec?, true_or, or_true, eq_self]
   all_goals
     unfold_body
@@ -237,10 +237,10 @@ section
 variable (go : Call → St → St × Ret) (hgo : ∀ c s, CacheProv s → CacheProv (go c s).1)
 include hgo
 
-theorem paTail_CacheProv (fd : Nat) (r : Reply) (c : Conn) (key : Nat) (q : Query) (s : St) (h : CacheProv s) :
-    CacheProv (paTail go fd r c key q s).1 := by
+theorem paDeliver_CacheProv (fd : Nat) (r : Reply) (c : Conn) (key : Nat) (q : Query) (s : St) (h : CacheProv s) :
+    CacheProv (paDeliver go fd r c key q s).1 := by
   have h1 : CacheProvF s.cache (s.accepted ++ [(fd, key, r)]) := CacheProvF_append h _
-  unfold paTail
+  unfold paDeliver
   simp only []
   split
   · simpa only [CacheProv, chan_frame] using h1
@@ -260,7 +260,7 @@ theorem bodyProcessAnswer_CacheProv (fd : Nat) (r : Reply) (s : St) (h : CachePr
   | some key =>
     obtain ⟨c, q, _, _, _, heq⟩ := bodyProcessAnswer_accept go hk
     rw [heq]
-    exact paTail_CacheProv go hgo fd r c key q _ h
+    exact paDeliver_CacheProv go hgo fd r c key q _ h
   | none =>
     rcases bodyProcessAnswer_reject go hk with h' | ⟨e, h'⟩ | ⟨c, key, q, _, _, _, h'⟩
     · rw [h']; exact h
@@ -276,11 +276,11 @@ theorem sqLink_CacheProv (pd : Bool) (key : Nat) (srv : Server) (fd : Nat) (s : 
     CacheProv (sqLink go pd key srv fd s).1 := by
   unfold sqLink; chan_peel hgo [CacheProv]
 
-theorem sqWrite_CacheProv (reqSrv : Option Nat) (key : Nat) (q : Query) (srv : Server) (fd : Nat) (s : St)
-    (h : CacheProv s) : CacheProv (sqWrite go reqSrv key q srv fd s).1 := by
-  have h1 : CacheProv (sqPrep key q srv fd s).1 := by simpa only [CacheProv, chan_frame] using h
+theorem sqWriteQ_CacheProv (reqSrv : Option Nat) (key : Nat) (q : Query) (srv : Server) (fd : Nat) (s : St)
+    (h : CacheProv s) : CacheProv (sqWriteQ go reqSrv key q srv fd s).1 := by
+  have h1 : CacheProv (sqPrepare key q srv fd s).1 := by simpa only [CacheProv, chan_frame] using h
   have h2 := sqFlush_CacheProv go hgo fd _ h1
-  unfold sqWrite
+  unfold sqWriteQ
   simp only []
   split
   · exact sqLink_CacheProv go hgo _ _ _ _ _ h2
@@ -289,7 +289,7 @@ theorem sqWrite_CacheProv (reqSrv : Option Nat) (key : Nat) (q : Query) (srv : S
 
 theorem bodySendQuery_CacheProv (reqSrv : Option Nat) (key : Nat) (s : St) (h : CacheProv s) :
     CacheProv (bodySendQuery go reqSrv key s).1 := by
-  rw [bodySendQuery_eq]
+  rw [bodySendQuery_stages]
   split
   · simpa only [CacheProv, chan_frame] using h
   · simp only []
@@ -297,7 +297,7 @@ theorem bodySendQuery_CacheProv (reqSrv : Option Nat) (key : Nat) (s : St) (h : 
     · exact hgo _ _ (by simpa only [CacheProv, chan_frame] using h)
     · split <;> pair_subst
       · apply hgo; split at * <;> simp_all only [CacheProv, chan_frame]
-      · apply sqWrite_CacheProv go hgo; split at * <;> simp_all only [CacheProv, chan_frame]
+      · apply sqWriteQ_CacheProv go hgo; split at * <;> simp_all only [CacheProv, chan_frame]
 
 theorem foldl_closeConn_CacheProv (fds : List Nat) (s : St) (h : CacheProv s) :
     CacheProv (fds.foldl (fun s fd => (go (.closeConn fd .ok) s).1) s) := by
